@@ -1,7 +1,7 @@
 (* Checkers evaluated by the correspondence run: each returns the indices of
    the cases on which the model and the implementation's observed output
    differ (or on which the specification-side predicate fails). *)
-From V Require Import Common.Base Common.Utf8 C07.Vlq C07.SpecMap C07.Mappings C07.Shift C07.LineCol C07.Builder.
+From V Require Import Common.Base Common.Utf8 C07.Vlq C07.SpecMap C07.Mappings C07.Shift C07.LineCol C07.Builder C07.JoinAll.
 
 Fixpoint mism_from {A} (f : A -> bool) (l : list A) (i : nat) : list nat :=
   match l with
@@ -152,3 +152,16 @@ Definition builder_ok (c : bytes * list (Z * Z * bytes) * bytes * bytes * Z * li
     && (fcol =? gcolumn) && Bool.eqb ign gign
   end.
 Definition check_builder := mismatches builder_ok.
+
+(* ---- the joining loop of generateSourceMapForChunk ---- *)
+(* one result: (data, first name offset or -1, #names, end state 6 fields, end has_name,
+    final column, should ignore, offset (lines, cols), source index, is null entry) *)
+Definition mkjres (c : bytes * Z * Z * list Z * bool * Z * bool * (Z * Z) * Z * bool) : jres :=
+  let '(data, fno, nn, e, eh, fcol, ign, off, src, null) := c in
+  mkJres data (if fno <? 0 then None else Some fno) nn (mkst e eh) fcol ign off src null.
+
+(* (results, Go: SourceMapPieces.Mappings) *)
+Definition joinall_ok (c : list (bytes * Z * Z * list Z * bool * Z * bool * (Z * Z) * Z * bool) * bytes) : bool :=
+  let '(rs, gb) := c in
+  match join_all (map mkjres rs) with Some m => zlist_eqb m gb | None => false end.
+Definition check_joinall := mismatches joinall_ok.
